@@ -8,7 +8,7 @@ ID, NUM, LEVEL = 'C05', 5, 'exploration'
 RULE = ('Evaluation = one stage boundary (quiescent point after find_slices / find_groups / find_layers, the '
         'stages being called one by one on a real CeiloChunk) audited: id == -1 exactly for the non-detections, '
         'table cluster ids == ids present per hit, n_* == table length, every layer inside exactly one group, a '
-        'group with ncomp=k>1 yields exactly k layers (else one layer inheriting the group id), multiset of '
+        'group with ncomp=k>1 yields exactly k layers (else exactly one layer), multiset of '
         '(ceilo, dt, height, type) == coerced input after the documented crop rule; in-situ contract on '
         'ncomp_from_gmm (populated labels == ncomp, one label per hit). Workloads: generated scenes x slicing/'
         'grouping/layering parameters, degenerate families (single valid hit, all-NaN, one height, two heights), '
